@@ -276,8 +276,7 @@ def run(chk):
     sc, tof = _load()
     from symex import loader
 
-    chk.functions = loader.describe([tof.Q_elements_from_wavelength, tof.Q_vec_from_Q_elements, tof.hkl_vec_from_Q_vec,
-                                     tof.ub_matrix_from_u_and_b, tof.hkl_elements_from_hkl_vec, tof.Q_from_wavelength])
+    chk.functions = loader.describe_exprs(['tof.Q_elements_from_wavelength', 'tof.Q_vec_from_Q_elements', 'tof.hkl_vec_from_Q_vec', 'tof.ub_matrix_from_u_and_b', 'tof.hkl_elements_from_hkl_vec', 'tof.Q_from_wavelength'], {**globals(), **locals()})
     run_jobs(chk, job_q, ['definition', 'units', 'rescale', 'rotation', 'definition:int64', 'definition:float32', 'units:int64'])
     run_jobs(chk, job_hkl, ['scalar', 'array'])
     run_jobs(chk, job_inv_model, [0])
